@@ -28,7 +28,8 @@ RULE = ('Model-based stateful testing: generated histories over 2-4 '
         'issued sid reads {}, nothing leaks across clients or namespaces. '
         'Non-trivial: a reconnect of the same (transport, namespace) after a '
         'save followed by a read, or two connections holding different '
-        'non-empty values simultaneously.')
+        'non-empty values simultaneously.'
+        ' A CONNECT for a namespace the transport is connected to already is sent as the duplicate it is: refused, the session of the connected client unchanged.')
 ASSUMPTIONS = [
     'session values are JSON-like dicts (the documented type)',
     'reads use get_session() and session(); values are compared by deep '
